@@ -4,6 +4,34 @@ TRUSTED = ("CPython ast/symtable; the analyzer's CFG construction and resolution
            "self-test); reference tables written from the property statement; no value-level semantics are decided")
 
 CLAIMS = {
+    "C01": {
+        "text": "Plumbing / dominance / memo-key analysis of the positive data pipeline in the current source: every "
+                "hypothesis_jsonschema.from_schema call passes allow_x00 and codec taken from the GenerationConfig in "
+                "scope and custom formats; _build_custom_formats restricts header values when NUL is disabled; "
+                "minLength/maxLength are removed only under evidence that the rewritten pattern is anchored at both ends "
+                "(computed from the predicate's body, not its name); request schemas drop readOnly properties; path "
+                "parameters are all required and non-empty; post-processing of positive strategies only filters / "
+                "serializes / quotes; cached strategies are keyed by everything they are built from. Not decided: that "
+                "hypothesis-jsonschema yields instances of the converted schema, correctness of the quantifier arithmetic "
+                "in update_quantifier, reachability of conforming values through the per-location filters.",
+        "design_ref": "DESIGN.md §4 C01",
+        "note": TRUSTED + "; hypothesis-jsonschema's contract",
+        "technique": "keyword plumbing into the generator, guard-dominance of keyword removal, cache-key completeness (def-use closure)",
+    },
+    "C02": {
+        "text": "Must-pass / sibling-agreement analysis of negative generation in the current source: every strategy "
+                "returned by negative_schema ends in a filter whose every definition contains `not validator.is_valid` "
+                "with the validator built from the ORIGINAL schema parameter; wherever the factory falls back to positive "
+                "generation the label is set to POSITIVE in the same block and that label reaches the ValueContainer; the "
+                "Case is constructed only past the any_negated_values test over all five containers whose failing arm "
+                "cannot fall through (reject / SkipTest are no-return in the CFG); labels are plumbed per container; "
+                "MutationContext.mutate returns only after testing the mutation result; 'can this location be negated' "
+                "and strategy caches are keyed by location and settings. Not decided: that a given mutation yields only "
+                "invalid instances (that is what the runtime filter is for).",
+        "design_ref": "DESIGN.md §4 C02",
+        "note": TRUSTED,
+        "technique": "CFG must-pass/dominance with no-return calls, factory/label sibling agreement, def-use of the validator's schema, cache-key completeness",
+    },
     "C03": {
         "text": "Label-coherence analysis of the coverage phase in the current source: for each of the Case constructions "
                 "of _iter_coverage_cases (def-use from the template call that produced `data`) the case-level mode, "
@@ -203,6 +231,19 @@ CLAIMS = {
         "note": TRUSTED + "; table of YAML-safe fields in sa/rules/c16.py",
         "technique": "taint flow into hand-built YAML with encoder/safe-type classification, producer/consumer guard check, CFG must-pass per interaction loop",
     },
+    "C17": {
+        "text": "Error-discipline / sibling / coverage-symmetry analysis of the examples phase in the current source: every "
+                "exception class add_examples swallows sets a mark that run_test reports; an example is skipped only "
+                "together with InvalidHeadersExampleMark; the parameter loop and the body loop of extract_top_level "
+                "consult the same four sources; examples reach openapi_cases as explicit containers in the EXPLICIT phase "
+                "and are only mapped by the location serializer; where body and parameter examples are zipped the loop "
+                "runs max(len, len) times (iterating one side only is a violation), and the per-parameter combination "
+                "count is the max over parameters. Not decided: the cycle/islice arithmetic itself, example extraction "
+                "from arbitrarily nested schemas.",
+        "design_ref": "DESIGN.md §4 C17",
+        "note": TRUSTED,
+        "technique": "exception-to-mark exhaustiveness, CFG must-pass for skipped examples, sibling-source agreement, iteration-space symmetry rule",
+    },
     "C19": {
         "text": "Decides, on all paths of the current source, the structural clauses behind 'extensions apply exactly where "
                 "their own filters say': closure-cell ownership of the per-registration FilterSet in to_filterable_hook "
@@ -215,6 +256,19 @@ CLAIMS = {
                           "not because sequences are enumerated",
         "technique": "closure-cell/def-use analysis + CFG dominance + who-must-call over discovered hook loops",
     },
+}
+
+CLAIMS["C20"] = {
+    "text": "Plumbing / who-must-call analysis of GraphQL generation in the current source: the hypothesis-graphql factory "
+            "is selected by the operation's root type over both RootType members and called with fields=[this field], "
+            "allow_x00, allow_null=graphql_allow_null, codec and the merged custom scalars; hooks are applied to the AST "
+            "and print_ast afterwards; a strategy served from a cache must be keyed by every setting it is built from; "
+            "both root types are enumerated and fields are yielded / counted only on the selected edge of _should_skip; "
+            "prepare_body wraps the document as {'query': ...} and both transports send prepare_body(case). Not decided: "
+            "validity of generated documents against the schema (needs graphql-core), custom scalar value domains.",
+    "design_ref": "DESIGN.md §4 C20",
+    "note": TRUSTED + "; hypothesis-graphql's contract for fields= / allow_null=",
+    "technique": "keyword plumbing into the strategy factory, cache-key completeness, CFG dominance over the filter test",
 }
 
 NOT_APPLICABLE = {
